@@ -523,7 +523,7 @@ Proof.
     change (g_shape (vf_geom a)) with (vf_shape a). rewrite Esh. cbn [lin].
     change (g_begin (vf_geom a)) with (vf_begin a).
     unfold segs_pairs. cbn [flat_map epairs]. unfold seg_pairs, s_off, s_len, s_addr.
-    cbn [fst snd]. do 2 f_equal. lia.
+    cbn [fst snd]. do 3 f_equal. lia.
   - cbv zeta.
     set (sf := stride_flatten (vf_geom a) (vf_start a) (vf_count a) (vf_stride0 a)).
     assert (Hseg : 1 <= snd sf).
@@ -592,3 +592,377 @@ Proof.
     + intros E. vm_compute in E. discriminate.
     + reflexivity.
 Qed.
+
+(* ================================================================== *)
+(* G4. Record splitting (ncmpio_add_record_requests)                    *)
+(* ================================================================== *)
+Lemma rec_split_length : forall lo start count s0 nrec nel xaddr xsz,
+  Zlen (rec_split lo start count s0 nrec nel xaddr xsz) = Z.max 0 nrec.
+Proof.
+  intros. unfold rec_split. rewrite nbg_Zlen_map. unfold Zlen. rewrite zrange_length. lia.
+Qed.
+
+Lemma rec_split_lead : forall lo start count s0 nrec nel xaddr xsz,
+  Forall (fun q => r_lead_off q = lo) (rec_split lo start count s0 nrec nel xaddr xsz).
+Proof.
+  intros. unfold rec_split. apply Forall_forall. intros q Hq.
+  apply in_map_iff in Hq. destruct Hq as [i [<- _]]. reflexivity.
+Qed.
+
+(* the SPEC enumerates record after record *)
+Lemma spec_offsets_rec_split : forall g s0 st c0 ct t0 ts,
+  spec_offsets g (s0 :: st) (c0 :: ct) (t0 :: ts) =
+  flat_map (fun i => spec_offsets g ((s0 + i * t0) :: st) (1 :: ct) (t0 :: ts)) (zrange 0 c0).
+Proof.
+  intros. unfold spec_offsets. cbn [req_indices]. rewrite map_flat_map_comm.
+  apply flat_map_ext. intros i. rewrite zrange_1. cbn [flat_map]. rewrite app_nil_r.
+  replace (s0 + i * t0 + 0 * t0) with (s0 + i * t0) by lia. reflexivity.
+Qed.
+
+Lemma epairs_flat_map_const : forall xsz m (f : Z -> list Z) a n k,
+  0 <= k -> (forall i, 0 <= i -> Zlen (f i) = m) ->
+  epairs xsz (a + k * (m * xsz)) (flat_map f (zseq k n)) =
+  flat_map (fun i => epairs xsz (a + i * (m * xsz)) (f i)) (zseq k n).
+Proof.
+  intros xsz m f a. induction n as [|n IH]; intros k Hk Hlen.
+  - reflexivity.
+  - cbn [zseq flat_map]. rewrite epairs_app. f_equal.
+    rewrite <- IH by (lia || assumption). f_equal. rewrite Hlen by assumption. lia.
+Qed.
+
+Lemma rec_req_ok : forall ss s0 st c0 ct t0 ts i,
+  req_ok (0 :: ss) (s0 :: st) (c0 :: ct) (t0 :: ts) -> 0 <= i ->
+  req_ok (0 :: ss) ((s0 + i * t0) :: st) (1 :: ct) (t0 :: ts).
+Proof.
+  intros ss s0 st c0 ct t0 ts i H Hi. cbn [req_ok] in *.
+  destruct H as (Hs & Hc & Ht & _ & Hd).
+  refine (conj _ (conj _ (conj Ht (conj (or_introl eq_refl) Hd)))); nia.
+Qed.
+
+Lemma rec_split_core : forall l g lo start count strd xaddr,
+  l_geom l = g -> g_isrec g = true -> wf_geom g -> rec_fits g ->
+  req_ok (g_shape g) start count strd -> 0 < zprod count ->
+  (forall q, length (r_start q) = length start -> req_stride l q = strd) ->
+  (match l_stride l with Some t => length t = length (g_shape g) | None => True end) ->
+  Forall (fun q => areq_wf (mkareq q l 0 0))
+         (rec_split lo start count (hd 1 strd) (hd 1 count) (zprod count / hd 1 count) xaddr (g_xsz g)) /\
+  flat_map (fun q => areq_pairs (mkareq q l 0 0))
+           (rec_split lo start count (hd 1 strd) (hd 1 count) (zprod count / hd 1 count) xaddr (g_xsz g))
+  = part_pairs g (start, count, strd) xaddr.
+Proof.
+  intros l g lo start count strd xaddr Hg Hrec Hwf Hfit Hreq Hpos Hrs Hlt.
+  destruct (g_isrec_cons g Hrec) as [ss Hs].
+  pose proof Hreq as Hreq0. rewrite Hs in Hreq.
+  destruct start as [|s0 st]; [destruct count; destruct strd; contradiction|].
+  destruct count as [|c0 ct]; [destruct strd; contradiction|].
+  destruct strd as [|t0 ts]; [contradiction|].
+  pose proof Hreq as Hreq1. cbn [req_ok] in Hreq1. destruct Hreq1 as (Hs0 & Hc0 & Ht0 & _ & Hd).
+  cbn [hd]. cbn [zprod] in Hpos |- *.
+  set (P := zprod ct) in *.
+  assert (HP0 : 0 <= P).
+  { apply zprod_nonneg. eapply dims_ok_count_nonneg; eassumption. }
+  assert (HP : 1 <= P /\ 1 <= c0) by nia. destruct HP as [HP Hc1].
+  replace (c0 * P / c0) with P by (rewrite Z.mul_comm, Z.div_mul by lia; reflexivity).
+  assert (Hx : 0 < g_xsz g) by (destruct Hwf as (Hx & _); exact Hx).
+  assert (Hqi : forall i, 0 <= i ->
+            req_ok (g_shape g) ((s0 + i * t0) :: st) (1 :: ct) (t0 :: ts)).
+  { intros i Hi. rewrite Hs. apply (rec_req_ok ss s0 st c0 ct t0 ts i); assumption. }
+  assert (Hlen : forall i, 0 <= i ->
+            Zlen (spec_offsets g ((s0 + i * t0) :: st) (1 :: ct) (t0 :: ts)) = P).
+  { intros i Hi. unfold Zlen. rewrite spec_offsets_length_req by (apply Hqi; assumption).
+    cbn [zprod]. fold P. lia. }
+  unfold rec_split. cbn [hd tl]. split.
+  - apply Forall_forall. intros q Hq. apply in_map_iff in Hq. destruct Hq as [i [<- Hi]].
+    apply zrange_In in Hi. unfold areq_wf. cbn [a_lead a_req r_start r_count r_nelems].
+    rewrite Hg. rewrite Hrs by reflexivity.
+    refine (conj Hwf (conj Hfit (conj _ (conj _ (conj _ (conj _ Hlt)))))).
+    + apply Hqi. lia.
+    + cbn [zprod]. fold P. lia.
+    + lia.
+    + intros _. reflexivity.
+  - rewrite flat_map_map_comm.
+    rewrite part_pairs_epairs by assumption. rewrite spec_offsets_rec_split.
+    change (zrange 0 c0) with (zseq 0 (Z.to_nat c0)).
+    transitivity (epairs (g_xsz g) (xaddr + 0 * (P * g_xsz g))
+                    (flat_map (fun i => spec_offsets g ((s0 + i * t0) :: st) (1 :: ct) (t0 :: ts))
+                              (zseq 0 (Z.to_nat c0)))); [|f_equal; lia].
+    rewrite epairs_flat_map_const by (lia || assumption).
+    apply flat_map_ext_In. intros i Hi. apply zseq_In in Hi.
+    unfold areq_pairs. cbn [a_lead a_req r_start r_count r_xaddr].
+    rewrite Hg. rewrite Hrs by reflexivity.
+    apply part_pairs_epairs. apply Hqi. lia.
+Qed.
+
+Lemma nbg_all_ones : forall l, Forall (fun t => 1 <= t) l ->
+  forallb (fun x => x <=? 1) l = true -> l = ones (length l).
+Proof.
+  induction l as [|x l IH]; intros HF Hb; [reflexivity|].
+  inversion HF as [|? ? Hx Hl]; subst. cbn [forallb] in Hb.
+  apply andb_true_iff in Hb. destruct Hb as [Ha Hb].
+  cbn [length]. rewrite ones_S. f_equal; [lia | apply IH; assumption].
+Qed.
+
+Lemma forallb_ones_like : forall l, forallb (fun x => x <=? 1) (ones_like l) = true.
+Proof.
+  unfold ones_like. induction l as [|x l IH]; [reflexivity|].
+  cbn [map forallb]. rewrite IH. reflexivity.
+Qed.
+
+Lemma stride_eff_ones_like : forall l, stride_eff (Some (ones_like l)) = None.
+Proof. intros. unfold stride_eff. rewrite forallb_ones_like. reflexivity. Qed.
+
+(* what the lead's (effective) stride means for its non-lead requests *)
+Lemma stride_eff_req_stride : forall l shape start count strd,
+  req_ok shape start count strd -> l_stride l = stride_eff (Some strd) ->
+  (forall q, length (r_start q) = length start -> req_stride l q = strd) /\
+  (match stride_eff (Some strd) with Some t => hd 1 t | None => 1 end) = hd 1 strd /\
+  (match l_stride l with Some t => length t = length shape | None => True end).
+Proof.
+  intros l shape start count strd Hreq Hl.
+  destruct (req_ok_lengths _ _ _ _ Hreq) as (Hls & _ & Hlt).
+  pose proof (req_ok_stride_pos _ _ _ _ Hreq) as Htp.
+  unfold req_stride. rewrite Hl. unfold stride_eff.
+  destruct (forallb (fun x => x <=? 1) strd) eqn:Ef.
+  - pose proof (nbg_all_ones strd Htp Ef) as E1.
+    refine (conj _ (conj _ I)).
+    + intros q Hq. rewrite ones_like_ones. rewrite Hq, Hls, <- Hlt. symmetry. exact E1.
+    + destruct strd as [|t ts]; [reflexivity|].
+      cbn [length] in E1. rewrite ones_S in E1. injection E1 as E1 _. cbn [hd]. lia.
+  - refine (conj _ (conj _ _)); [intros; reflexivity | reflexivity | assumption].
+Qed.
+
+Theorem rec_split_pairs : forall l g lo start count strd xaddr,
+  g_isrec g = true -> wf_geom g -> rec_fits g ->
+  req_ok (g_shape g) start count strd -> 0 < zprod count ->
+  l_geom l = g -> l_stride l = stride_eff (Some strd) ->
+  flat_map (fun q => areq_pairs (mkareq q l 0 0))
+           (rec_split lo start count
+                      (match stride_eff (Some strd) with Some t => hd 1 t | None => 1 end)
+                      (hd 1 count) (zprod count / hd 1 count) xaddr (g_xsz g))
+  = part_pairs g (start, count, strd) xaddr.
+Proof.
+  intros l g lo start count strd xaddr Hrec Hwf Hfit Hreq Hpos Hg Hl.
+  destruct (stride_eff_req_stride l _ _ _ _ Hreq Hl) as (Hrs & Hhd & Hlt).
+  rewrite Hhd. apply rec_split_core; assumption.
+Qed.
+
+Theorem rec_split_wf : forall l g lo start count strd xaddr,
+  g_isrec g = true -> wf_geom g -> rec_fits g ->
+  req_ok (g_shape g) start count strd -> 0 < zprod count ->
+  l_geom l = g -> l_stride l = stride_eff (Some strd) ->
+  Forall (fun q => areq_wf (mkareq q l 0 0))
+         (rec_split lo start count
+                    (match stride_eff (Some strd) with Some t => hd 1 t | None => 1 end)
+                    (hd 1 count) (zprod count / hd 1 count) xaddr (g_xsz g)).
+Proof.
+  intros l g lo start count strd xaddr Hrec Hwf Hfit Hreq Hpos Hg Hl.
+  destruct (stride_eff_req_stride l _ _ _ _ Hreq Hl) as (Hrs & Hhd & Hlt).
+  rewrite Hhd. apply rec_split_core; assumption.
+Qed.
+
+Theorem single_req_pairs : forall l g lo start count strd xaddr,
+  g_isrec g = false -> wf_geom g -> rec_fits g ->
+  req_ok (g_shape g) start count strd -> 0 < zprod count ->
+  l_geom l = g -> l_stride l = stride_eff (Some strd) ->
+  areq_pairs (mkareq (mkreq lo start count (zprod count) xaddr) l 0 0)
+  = part_pairs g (start, count, strd) xaddr /\
+  areq_wf (mkareq (mkreq lo start count (zprod count) xaddr) l 0 0).
+Proof.
+  intros l g lo start count strd xaddr Hrec Hwf Hfit Hreq Hpos Hg Hl.
+  destruct (stride_eff_req_stride l _ _ _ _ Hreq Hl) as (Hrs & Hhd & Hlt).
+  split.
+  - unfold areq_pairs. cbn [a_lead a_req r_start r_count r_xaddr].
+    rewrite Hg. rewrite Hrs by reflexivity. reflexivity.
+  - unfold areq_wf. cbn [a_lead a_req r_start r_count r_nelems].
+    rewrite Hg. rewrite Hrs by reflexivity.
+    refine (conj Hwf (conj Hfit (conj Hreq (conj eq_refl (conj Hpos (conj _ Hlt)))))).
+    intros E. congruence.
+Qed.
+
+Example rec_split_example :
+  (* 3 records (stride 4) of gr3, 4 elements each; the lead keeps the stride [4;1;3] *)
+  let l := mklead 0 gr3 (stride_eff (Some [4; 1; 3])) 0 3 14 false false (-1) 7000 12 None 0
+                  [([5; 1; 0], [3; 2; 2], [4; 1; 3])] in
+  req_ok (g_shape gr3) [5; 1; 0] [3; 2; 2] [4; 1; 3] /\ 0 < zprod [3; 2; 2] /\
+  map r_start (rec_split 0 [5; 1; 0] [3; 2; 2] 4 3 4 7000 8) = [[5; 1; 0]; [9; 1; 0]; [13; 1; 0]] /\
+  map r_xaddr (rec_split 0 [5; 1; 0] [3; 2; 2] 4 3 4 7000 8) = [7000; 7032; 7064] /\
+  flat_map (fun q => areq_pairs (mkareq q l 0 0)) (rec_split 0 [5; 1; 0] [3; 2; 2] 4 3 4 7000 8)
+  = part_pairs gr3 ([5; 1; 0], [3; 2; 2], [4; 1; 3]) 7000.
+Proof.
+  cbv zeta. split; [exact gr3_req|]. split; [reflexivity|].
+  repeat split; vm_compute; reflexivity.
+Qed.
+
+(* ================================================================== *)
+(* G5. The non-lead requests built by post_varm / post_varn             *)
+(* ================================================================== *)
+(* one (start,count,stride) part: record-split or kept whole *)
+Lemma piece_reqs_ok : forall g start count strd xaddr lo l,
+  wf_geom g -> rec_fits g -> req_ok (g_shape g) start count strd -> 0 < zprod count ->
+  l_geom l = g -> l_stride l = stride_eff (Some strd) ->
+  let reqs := (if g_isrec g
+               then rec_split lo start count
+                              (match stride_eff (Some strd) with Some t => hd 1 t | None => 1 end)
+                              (hd 1 count) (zprod count / hd 1 count) xaddr (g_xsz g)
+               else [mkreq lo start count (zprod count) xaddr]) in
+  Forall (fun q => areq_wf (mkareq q l 0 0)) reqs /\
+  flat_map (fun q => areq_pairs (mkareq q l 0 0)) reqs = part_pairs g (start, count, strd) xaddr /\
+  Forall (fun q => r_lead_off q = lo) reqs /\
+  Zlen reqs = (if g_isrec g then hd 1 count else 1) /\ 0 < Zlen reqs.
+Proof.
+  intros g start count strd xaddr lo l Hwf Hfit Hreq Hpos Hg Hl. cbv zeta.
+  destruct (g_isrec g) eqn:Erec.
+  - assert (Hc1 : 1 <= hd 1 count).
+    { assert (Hcp : Forall (fun c => 1 <= c) count).
+      { apply zprod_nonzero_pos; [eapply req_ok_count_nonneg; eassumption | lia]. }
+      destruct count as [|c0 ct]; cbn [hd]; [lia|].
+      inversion Hcp; subst; assumption. }
+    rewrite rec_split_length.
+    refine (conj _ (conj _ (conj _ (conj _ _)))); try lia.
+    + apply rec_split_wf; assumption.
+    + apply rec_split_pairs; assumption.
+    + apply rec_split_lead.
+  - destruct (single_req_pairs l g lo start count strd xaddr Erec Hwf Hfit Hreq Hpos Hg Hl)
+      as [Hp Hw].
+    refine (conj _ (conj _ (conj _ (conj _ _)))).
+    + constructor; [assumption | constructor].
+    + cbn [flat_map]. rewrite app_nil_r. assumption.
+    + constructor; [reflexivity | constructor].
+    + reflexivity.
+    + reflexivity.
+Qed.
+
+Theorem post_varm_reqs_ok : forall g start count stride xaddr lo l,
+  post_ok g start count stride -> 0 < zprod count * g_xsz g ->
+  l_geom l = g -> l_stride l = stride_eff stride -> l_xaddr l = xaddr ->
+  l_orig l = [(start, count, match stride with Some t => t | None => ones_like count end)] ->
+  let reqs := (if g_isrec g
+               then rec_split lo start count
+                              (match stride_eff stride with Some t => hd 1 t | None => 1 end)
+                              (hd 1 count) (zprod count / hd 1 count) xaddr (g_xsz g)
+               else [mkreq lo start count (zprod count) xaddr]) in
+  Forall (fun q => areq_wf (mkareq q l 0 0)) reqs /\
+  flat_map (fun q => areq_pairs (mkareq q l 0 0)) reqs = lead_pairs l /\
+  Forall (fun q => r_lead_off q = lo) reqs /\
+  Zlen reqs = (if g_isrec g then hd 1 count else 1) /\ 0 < Zlen reqs.
+Proof.
+  intros g start count stride xaddr lo l Hok Hnb Hg Hl Hxa Horig.
+  destruct Hok as (Hwf & Hfit & Hreq).
+  set (strd := match stride with Some t => t | None => ones_like count end) in *.
+  assert (Hse : stride_eff stride = stride_eff (Some strd)).
+  { unfold strd. destruct stride as [t|]; [reflexivity|].
+    rewrite stride_eff_ones_like. reflexivity. }
+  assert (Hpos : 0 < zprod count).
+  { destruct Hwf as (Hx & _). nia. }
+  assert (Hlp : lead_pairs l = part_pairs g (start, count, strd) xaddr).
+  { unfold lead_pairs. rewrite Horig, Hg, Hxa. cbn [parts_pairs]. apply app_nil_r. }
+  rewrite Hse in Hl |- *. rewrite Hlp.
+  apply piece_reqs_ok; assumption.
+Qed.
+
+Lemma varn_reqs_core : forall g lo l,
+  wf_geom g -> rec_fits g -> l_geom l = g -> l_stride l = None ->
+  forall parts xaddr,
+  Forall (fun p => req_ok (g_shape g) (fst p) (part_count (fst p) (snd p)) (ones_like (fst p)))
+         parts ->
+  Forall (fun q => areq_wf (mkareq q l 0 0)) (varn_reqs (g_isrec g) lo (g_xsz g) parts xaddr) /\
+  flat_map (fun q => areq_pairs (mkareq q l 0 0)) (varn_reqs (g_isrec g) lo (g_xsz g) parts xaddr)
+  = parts_pairs g (map (fun p => (fst p, part_count (fst p) (snd p), ones_like (fst p)))
+                       (filter (fun p => negb (zprod (part_count (fst p) (snd p)) =? 0)) parts))
+                xaddr /\
+  Forall (fun q => r_lead_off q = lo) (varn_reqs (g_isrec g) lo (g_xsz g) parts xaddr) /\
+  Zlen (varn_reqs (g_isrec g) lo (g_xsz g) parts xaddr)
+  = zsum (map (fun p => if g_isrec g then hd 1 (part_count (fst p) (snd p)) else 1)
+              (filter (fun p => negb (zprod (part_count (fst p) (snd p)) =? 0)) parts)).
+Proof.
+  intros g lo l Hwf Hfit Hg Hl.
+  induction parts as [|[s c] r IH]; intros xaddr HF.
+  - cbn [varn_reqs filter map parts_pairs zsum flat_map].
+    refine (conj _ (conj eq_refl (conj _ eq_refl))); constructor.
+  - pose proof (Forall_inv HF) as Hp. pose proof (Forall_inv_tail HF) as HF'. cbn [fst snd] in Hp.
+    cbn [varn_reqs filter fst snd].
+    destruct (zprod (part_count s c) =? 0) eqn:Ez; cbn [negb].
+    + apply IH. assumption.
+    + assert (Hpos : 0 < zprod (part_count s c)).
+      { assert (0 <= zprod (part_count s c)); [|lia].
+        apply zprod_nonneg. eapply req_ok_count_nonneg; eassumption. }
+      assert (Hl' : l_stride l = stride_eff (Some (ones_like s))).
+      { rewrite stride_eff_ones_like. assumption. }
+      pose proof (piece_reqs_ok g s (part_count s c) (ones_like s) xaddr lo l
+                    Hwf Hfit Hp Hpos Hg Hl') as Hpc.
+      cbv zeta in Hpc. rewrite stride_eff_ones_like in Hpc.
+      destruct Hpc as (P1 & P2 & P3 & P4 & _).
+      destruct (IH (xaddr + zprod (part_count s c) * g_xsz g) HF') as (I1 & I2 & I3 & I4).
+      cbn [map parts_pairs zsum fst snd].
+      refine (conj _ (conj _ (conj _ _))).
+      * apply Forall_app. split; assumption.
+      * rewrite flat_map_app, P2, I2. reflexivity.
+      * apply Forall_app. split; assumption.
+      * rewrite nbg_Zlen_app, P4, I4. reflexivity.
+Qed.
+
+Theorem post_varn_reqs_ok : forall g parts xaddr lo l,
+  postn_ok g parts -> l_geom l = g -> l_stride l = None -> l_xaddr l = xaddr ->
+  l_orig l = map (fun p => (fst p, part_count (fst p) (snd p), ones_like (fst p)))
+                 (filter (fun p => negb (zprod (part_count (fst p) (snd p)) =? 0)) parts) ->
+  let reqs := varn_reqs (g_isrec g) lo (g_xsz g) parts xaddr in
+  Forall (fun q => areq_wf (mkareq q l 0 0)) reqs /\
+  flat_map (fun q => areq_pairs (mkareq q l 0 0)) reqs = lead_pairs l /\
+  Forall (fun q => r_lead_off q = lo) reqs /\
+  Zlen reqs = zsum (map (fun p => if g_isrec g then hd 1 (part_count (fst p) (snd p)) else 1)
+                        (filter (fun p => negb (zprod (part_count (fst p) (snd p)) =? 0)) parts)).
+Proof.
+  intros g parts xaddr lo l Hok Hg Hl Hxa Horig. cbv zeta.
+  destruct Hok as (Hwf & Hfit & _ & HF).
+  unfold lead_pairs. rewrite Horig, Hg, Hxa.
+  apply varn_reqs_core; assumption.
+Qed.
+
+(* the hypotheses are satisfiable: the terms are those inside post_varm / post_varn *)
+Example post_varm_reqs_example :
+  let g := gr3 in let start := [5; 1; 0] in let count := [3; 2; 2] in
+  let stride := Some [4; 1; 3] in
+  let l := mklead 0 g (stride_eff stride) 0 3 14 false false (-1) 7000 12 None 0
+                  [(start, count, [4; 1; 3])] in
+  post_ok g start count stride /\ 0 < zprod count * g_xsz g /\
+  Zlen (rec_split 7 start count 4 3 4 7000 8) = 3 /\
+  flat_map (fun q => areq_pairs (mkareq q l 0 0)) (rec_split 7 start count 4 3 4 7000 8)
+  = lead_pairs l.
+Proof.
+  cbv zeta. destruct gr3_wf as [Hwf Hfit].
+  split; [exact (conj Hwf (conj Hfit gr3_req))|].
+  split; [reflexivity|]. split; vm_compute; reflexivity.
+Qed.
+
+Example post_varn_reqs_example :
+  (* three parts on gr3, the second one empty (dropped); counts[2] = NULL *)
+  let parts := [([5; 1; 0], Some [2; 2; 2]); ([0; 0; 0], Some [1; 0; 4]); ([1; 2; 3], None)] in
+  let l := mklead 0 gr3 None 0 3 7 false false (-1) 9000 9 None 0
+                  [([5; 1; 0], [2; 2; 2], [1; 1; 1]); ([1; 2; 3], [1; 1; 1], [1; 1; 1])] in
+  postn_ok gr3 parts /\
+  l_orig l = map (fun p => (fst p, part_count (fst p) (snd p), ones_like (fst p)))
+                 (filter (fun p => negb (zprod (part_count (fst p) (snd p)) =? 0)) parts) /\
+  Zlen (varn_reqs (g_isrec gr3) 4 (g_xsz gr3) parts 9000) = 3 /\
+  flat_map (fun q => areq_pairs (mkareq q l 0 0)) (varn_reqs (g_isrec gr3) 4 (g_xsz gr3) parts 9000)
+  = lead_pairs l.
+Proof.
+  cbv zeta. destruct gr3_wf as [Hwf Hfit].
+  split.
+  - refine (conj Hwf (conj Hfit (conj _ _))); [discriminate|].
+    repeat constructor; cbn [fst snd part_count ones_like map gr3 g_shape req_ok dims_ok]; lia.
+  - repeat split; vm_compute; reflexivity.
+Qed.
+
+(* ================================================================== *)
+(* Assumptions                                                          *)
+(* ================================================================== *)
+Print Assumptions areq_pairs_length.
+Print Assumptions req_ftype_pairs.
+Print Assumptions req_ftype_total.
+Print Assumptions vars_flatten_pairs.
+Print Assumptions vars_flatten_pos.
+Print Assumptions rec_split_pairs.
+Print Assumptions rec_split_wf.
+Print Assumptions single_req_pairs.
+Print Assumptions post_varm_reqs_ok.
+Print Assumptions post_varn_reqs_ok.
